@@ -739,6 +739,32 @@ func (p *Prog) ProveNonZero(fn *ssa.Function, at ssa.Instruction, v ssa.Value) (
 
 func (p *Prog) proveNonZeroDepth(fn *ssa.Function, at ssa.Instruction, v ssa.Value, depth int) (bool, string) {
 	base := stripIntWiden(v)
+	// a local spilled to a cell (captured by a closure): the value stored last in the same block, before the load
+	if ld, ok := base.(*ssa.UnOp); ok && ld.Op == token.MUL && depth < 3 {
+		if al, isAl := ld.X.(*ssa.Alloc); isAl {
+			var last *ssa.Store
+			for _, in := range ld.Block().Instrs {
+				if in == ssa.Instruction(ld) {
+					break
+				}
+				switch x := in.(type) {
+				case *ssa.Store:
+					if x.Addr == ssa.Value(al) {
+						last = x
+					}
+				case *ssa.Call:
+					if _, isB := x.Call.Value.(*ssa.Builtin); !isB && x.Call.StaticCallee() == nil {
+						last = nil // a dynamic call may run a closure that writes the cell
+					}
+				}
+			}
+			if last != nil {
+				if ok, how := p.proveNonZeroDepth(fn, last, last.Val, depth+1); ok {
+					return true, "stored just before: " + how
+				}
+			}
+		}
+	}
 	if cv, ok := base.(*ssa.Convert); ok { // int(max(1, x)): truncation keeps a value >= 1 at least 1
 		base = cv.X
 	}
